@@ -55,8 +55,17 @@ def touches_storage(b):
     return False
 
 
-def is_kernel(b):
-    return bool(b.loops()) or touches_storage(b)
+def is_kernel(b, depth=0):
+    """a loop or raw storage access in the body itself - or in a helper introduced after the review that it calls
+    (the kernel's loop moved into a private helper is still this operator's kernel)"""
+    if bool(b.loops()) or touches_storage(b):
+        return True
+    if depth < 3:
+        for bb, t, fn in b.iter_calls():
+            h = b.crate.new_helper(fn)
+            if h is not None and h is not b and is_kernel(h, depth + 1):
+                return True
+    return False
 
 
 def _strip_self(e):
